@@ -840,3 +840,347 @@ Theorem extract_length_delimited_total lfl be w :
   exists f, extract (LenDelim lfl be) w = Ok (Some f) /\
             1 <= frame_len f /\ frame_len f <= length w.
 Proof. intros H. exact (extract_inside (LenDelim lfl be) w H). Qed.
+
+(* ====================================================================== *)
+(* sink side with a codec that can fail                                     *)
+
+From Compio.Model Require IoHelpers.
+From Compio.Thm Require IoHelpersThm.
+
+Notation sbytes := IoHelpers.sink_bytes.
+
+(* the frame a pending write still has to hand over *)
+Definition pend (sk : sink) : list byte := if sk_writing sk then sk_buf sk else [].
+
+Definition item_frames (fr : framer) (it : sitem) : list (list byte) :=
+  match si_fail it with None => [enclose fr (si_payload it)] | Some _ => [] end.
+
+(* the framings of the successfully encoded items of a program, each framed
+   on its own *)
+Definition ok_frames (fr : framer) (ops : list sop) : list (list byte) :=
+  flat_map (fun op => match op with
+                      | SFeed it | SSend it => item_frames fr it
+                      | _ => []
+                      end) ops.
+
+Definition io_err (r : sres) : Prop := match r with SIoErr _ => True | _ => False end.
+
+Definition expected_res (op : sop) : sres :=
+  match op with
+  | SFeed it | SSend it => match si_fail it with None => SOk | Some _ => SCodecErr end
+  | _ => SOk
+  end.
+
+(* start_send depends neither on what the buffer held before nor on how much
+   a failing encoder wrote *)
+Lemma start_send_spec fr sk it :
+  start_send fr sk it =
+  match si_fail it with
+  | None => (SOk, mksink (enclose fr (si_payload it)) true false)
+  | Some _ => (SCodecErr, mksink [] false false)
+  end.
+Proof. unfold start_send, encode_item, buf_clear. destruct (si_fail it); reflexivity. Qed.
+
+Lemma finish_write_spec sk ws log :
+  exists r sk' ws' log' n,
+    finish_write sk ws log = (r, sk', ws', log') /\
+    sk_writing sk' = false /\ (r = SOk \/ io_err r) /\
+    n <= length (pend sk) /\
+    sbytes log' = sbytes log ++ firstn n (pend sk) /\
+    (~ io_err r -> n = length (pend sk)).
+Proof.
+  unfold finish_write, pend. destruct (sk_writing sk) eqn:W.
+  - destruct (IoHelpersThm.write_all_correct ws (sk_buf sk)) as (o & l & ws' & n & E & Ln & Eb & Full).
+    rewrite E. eexists _, _, _, _, n. split; [reflexivity|]. cbn [sk_writing].
+    split; [reflexivity|]. split; [destruct o; [left; reflexivity|right; exact I]|].
+    split; [exact Ln|]. split; [rewrite IoHelpersThm.sink_bytes_app, Eb; reflexivity|].
+    intros Hn. destruct o as [k|e]; [apply (Full k eq_refl)|exfalso; apply Hn; exact I].
+  - eexists _, _, _, _, 0. split; [reflexivity|]. split; [exact W|]. split; [left; reflexivity|].
+    cbn [length firstn]. split; [lia|]. split; [rewrite app_nil_r; reflexivity|reflexivity].
+Qed.
+
+Lemma sbytes_flush log : sbytes (log ++ [IoHelpers.WFlush]) = sbytes log.
+Proof. rewrite IoHelpersThm.sink_bytes_app. cbn. apply app_nil_r. Qed.
+Lemma sbytes_shutdown log : sbytes (log ++ [IoHelpers.WShutdown]) = sbytes log.
+Proof. rewrite IoHelpersThm.sink_bytes_app. cbn. apply app_nil_r. Qed.
+
+(* ---- exact form: a writer that reports no error ------------------------ *)
+
+Lemma finish_write_exact sk ws log r sk1 ws1 log1 :
+  finish_write sk ws log = (r, sk1, ws1, log1) -> ~ io_err r ->
+  r = SOk /\ sk_writing sk1 = false /\ sbytes log1 = sbytes log ++ pend sk.
+Proof.
+  intros E Hn. destruct (finish_write_spec sk ws log) as (r' & sk' & ws' & log' & n & E' & W & R & Ln & Eb & Full).
+  rewrite E in E'. injection E' as <- <- <- <-.
+  split; [destruct R; [assumption|contradiction]|]. split; [exact W|].
+  rewrite Eb, (Full Hn). rewrite firstn_all. reflexivity.
+Qed.
+
+Lemma pend_idle sk : sk_writing sk = false -> pend sk = [].
+Proof. unfold pend. intros ->. reflexivity. Qed.
+
+Lemma sink_feed_exact fr it sk ws log r sk1 ws1 log1 :
+  sink_feed fr it sk ws log = (r, sk1, ws1, log1) -> ~ io_err r ->
+  r = expected_res (SFeed it) /\
+  sbytes log1 ++ pend sk1 = (sbytes log ++ pend sk) ++ concat (item_frames fr it).
+Proof.
+  unfold sink_feed. destruct (finish_write sk ws log) as [[[r0 sk0] ws0] log0] eqn:F.
+  destruct (finish_write_spec sk ws log) as (r' & sk' & ws' & log' & n & E' & W & R & _).
+  rewrite F in E'. injection E' as <- <- <- <-.
+  destruct R as [->|R].
+  - rewrite start_send_spec. destruct (finish_write_exact _ _ _ _ _ _ _ F ltac:(intros [])) as (_ & _ & Eb).
+    unfold item_frames, expected_res. destruct (si_fail it); intros E Hn; injection E as <- <- <- <-.
+    + split; [reflexivity|]. unfold pend at 1; cbn [sk_writing concat]. rewrite Eb, !app_nil_r. reflexivity.
+    + split; [reflexivity|]. unfold pend at 1; cbn [sk_writing sk_buf concat]. rewrite Eb, app_nil_r. reflexivity.
+  - destruct r0; try contradiction. intros E Hn. injection E as <- <- <- <-. exfalso. apply Hn. exact I.
+Qed.
+
+Lemma sink_flush_exact sk ws log r sk1 ws1 log1 :
+  sink_flush sk ws log = (r, sk1, ws1, log1) -> ~ io_err r ->
+  r = SOk /\ sk_writing sk1 = false /\ sbytes log1 ++ pend sk1 = sbytes log ++ pend sk.
+Proof.
+  unfold sink_flush. destruct (sk_writing sk) eqn:W; intros E Hn.
+  - destruct (finish_write_exact _ _ _ _ _ _ _ E Hn) as (-> & W1 & Eb).
+    split; [reflexivity|]. split; [exact W1|]. rewrite (pend_idle sk1 W1), app_nil_r. exact Eb.
+  - injection E as <- <- <- <-. split; [reflexivity|]. split; [reflexivity|].
+    rewrite sbytes_flush. unfold pend; cbn [sk_writing]. rewrite W. reflexivity.
+Qed.
+
+Lemma sink_close_exact sk ws log r sk1 ws1 log1 :
+  sink_close sk ws log = (r, sk1, ws1, log1) -> ~ io_err r ->
+  r = SOk /\ sbytes log1 ++ pend sk1 = sbytes log ++ pend sk.
+Proof.
+  unfold sink_close. destruct (sk_writing sk) eqn:W; intros E Hn.
+  - destruct (finish_write_exact _ _ _ _ _ _ _ E Hn) as (-> & W1 & Eb).
+    split; [reflexivity|]. rewrite (pend_idle sk1 W1), app_nil_r. exact Eb.
+  - destruct (sk_conf sk); injection E as <- <- <- <-; (split; [reflexivity|]);
+      [|rewrite sbytes_shutdown]; unfold pend; cbn [sk_writing]; rewrite W; reflexivity.
+Qed.
+
+Lemma sink_step_exact fr op sk ws log r sk1 ws1 log1 :
+  sink_step fr op sk ws log = (r, sk1, ws1, log1) -> ~ io_err r ->
+  r = expected_res op /\
+  sbytes log1 ++ pend sk1 = (sbytes log ++ pend sk) ++ concat (ok_frames fr [op]).
+Proof.
+  unfold ok_frames; cbn [flat_map]. rewrite app_nil_r.
+  destruct op as [it|it| |]; cbn [sink_step].
+  - apply sink_feed_exact.
+  - destruct (sink_feed fr it sk ws log) as [[[r0 sk0] ws0] log0] eqn:F.
+    destruct r0.
+    + intros E Hn. destruct (sink_feed_exact _ _ _ _ _ _ _ _ _ F ltac:(intros [])) as (R0 & Eb).
+      destruct (sink_flush_exact _ _ _ _ _ _ _ E Hn) as (-> & _ & Eb').
+      split; [exact R0|]. rewrite Eb'. exact Eb.
+    + intros E Hn. injection E as <- <- <- <-. apply (sink_feed_exact _ _ _ _ _ _ _ _ _ F Hn).
+    + intros E Hn. injection E as <- <- <- <-. exfalso. apply Hn. exact I.
+  - intros E Hn. destruct (sink_flush_exact _ _ _ _ _ _ _ E Hn) as (-> & _ & Eb).
+    split; [reflexivity|]. cbn [concat]. rewrite app_nil_r. exact Eb.
+  - intros E Hn. destruct (sink_close_exact _ _ _ _ _ _ _ E Hn) as (-> & Eb).
+    split; [reflexivity|]. cbn [concat]. rewrite app_nil_r. exact Eb.
+Qed.
+
+Lemma ok_frames_cons fr op ops : ok_frames fr (op :: ops) = ok_frames fr [op] ++ ok_frames fr ops.
+Proof. unfold ok_frames. cbn [flat_map]. rewrite app_nil_r. reflexivity. Qed.
+
+Theorem sink_run_exact fr : forall ops sk ws log rs sk' log',
+  sink_run fr ops sk ws log = (rs, sk', log') ->
+  Forall (fun r => ~ io_err r) rs ->
+  rs = map expected_res ops /\
+  sbytes log' ++ pend sk' = (sbytes log ++ pend sk) ++ concat (ok_frames fr ops).
+Proof.
+  induction ops as [|op ops IH]; intros sk ws log rs sk' log' E Hn.
+  - cbn [sink_run] in E. injection E as <- <- <-. split; [reflexivity|]. cbn. rewrite app_nil_r. reflexivity.
+  - cbn [sink_run] in E.
+    destruct (sink_step fr op sk ws log) as [[[r sk1] ws1] log1] eqn:S.
+    destruct (sink_run fr ops sk1 ws1 log1) as [[rs1 sk2] log2] eqn:R.
+    injection E as <- <- <-. inversion Hn as [|? ? Hr Hrs]; subst.
+    destruct (sink_step_exact _ _ _ _ _ _ _ _ _ S Hr) as (-> & Eb).
+    destruct (IH _ _ _ _ _ _ R Hrs) as (-> & Eb2).
+    split; [reflexivity|]. rewrite Eb2, Eb, (ok_frames_cons fr op ops), concat_app, !app_assoc. reflexivity.
+Qed.
+
+(* `send` for every item, from a fresh sink: everything is handed over *)
+Lemma send_leaves_idle fr it sk ws log r sk1 ws1 log1 :
+  sink_step fr (SSend it) sk ws log = (r, sk1, ws1, log1) -> sk_writing sk1 = false.
+Proof.
+  cbn [sink_step]. unfold sink_feed.
+  destruct (finish_write_spec sk ws log) as (r0 & sk0 & ws0 & log0 & n & E0 & W0 & R0 & _).
+  rewrite E0. destruct R0 as [->|R0].
+  - rewrite start_send_spec. destruct (si_fail it).
+    + intros E. injection E as <- <- <- <-. reflexivity.
+    + unfold sink_flush; cbn [sk_writing]. intros E.
+      destruct (finish_write_spec (mksink (enclose fr (si_payload it)) true false) ws0 log0)
+        as (r2 & sk2 & ws2 & log2 & n2 & E2 & W2 & _).
+      rewrite E2 in E. injection E as <- <- <- <-. exact W2.
+  - destruct r0; try contradiction. intros E. injection E as <- <- <- <-. exact W0.
+Qed.
+
+Lemma sink_run_sends_idle fr : forall items sk ws log rs sk' log',
+  sk_writing sk = false ->
+  sink_run fr (map SSend items) sk ws log = (rs, sk', log') -> sk_writing sk' = false.
+Proof.
+  induction items as [|it items IH]; intros sk ws log rs sk' log' W E.
+  - cbn in E. injection E as <- <- <-. exact W.
+  - cbn [map sink_run] in E.
+    destruct (sink_step fr (SSend it) sk ws log) as [[[r sk1] ws1] log1] eqn:S.
+    destruct (sink_run fr (map SSend items) sk1 ws1 log1) as [[rs1 sk2] log2] eqn:R.
+    injection E as <- <- <-. apply (IH _ _ _ _ _ _ (send_leaves_idle _ _ _ _ _ _ _ _ _ S) R).
+Qed.
+
+Definition ok_payloads (items : list sitem) : list (list byte) :=
+  flat_map (fun it => match si_fail it with None => [si_payload it] | Some _ => [] end) items.
+
+Lemma ok_frames_sends fr items :
+  ok_frames fr (map SSend items) = map (enclose fr) (ok_payloads items).
+Proof.
+  induction items as [|it items IH]; [reflexivity|].
+  cbn [map]. rewrite (ok_frames_cons fr (SSend it) (map SSend items)), IH. unfold ok_payloads at 2. cbn [flat_map].
+  rewrite map_app. f_equal. unfold ok_frames, item_frames. cbn [flat_map].
+  destruct (si_fail it); reflexivity.
+Qed.
+
+Theorem sink_send_all fr items ws rs sk' log' :
+  sink_run fr (map SSend items) sink_init ws [] = (rs, sk', log') ->
+  Forall (fun r => ~ io_err r) rs ->
+  sbytes log' = encode_stream fr (ok_payloads items) /\
+  rs = map (fun it => match si_fail it with None => SOk | Some _ => SCodecErr end) items.
+Proof.
+  intros E Hn. destruct (sink_run_exact fr _ _ _ _ _ _ _ E Hn) as (Er & Eb).
+  pose proof (sink_run_sends_idle fr items sink_init ws [] rs sk' log' eq_refl E) as W.
+  rewrite (pend_idle sk' W), app_nil_r in Eb. cbn in Eb. rewrite ok_frames_sends in Eb.
+  split; [exact Eb|]. rewrite Er, map_map. reflexivity.
+Qed.
+
+(* ---- general form: any writer script ----------------------------------- *)
+
+(* [bs] is made of a prefix of every frame of [fs], in order: no byte that is
+   not part of the framing of a successfully encoded item, nothing reordered *)
+Inductive pieces : list (list byte) -> list byte -> Prop :=
+| p_nil : pieces [] []
+| p_snoc fs bs f n : pieces fs bs -> pieces (fs ++ [f]) (bs ++ firstn n f).
+
+Definition sinv (F : list (list byte)) (sk : sink) (bs : list byte) : Prop :=
+  if sk_writing sk then exists F', F = F' ++ [sk_buf sk] /\ pieces F' bs else pieces F bs.
+
+Lemma pieces_skip fs bs f : pieces fs bs -> pieces (fs ++ [f]) bs.
+Proof. intros P. rewrite <- (app_nil_r bs). apply (p_snoc fs bs f 0 P). Qed.
+
+Lemma pieces_skip_frames fr it fs bs : pieces fs bs -> pieces (fs ++ item_frames fr it) bs.
+Proof.
+  intros P. unfold item_frames. destruct (si_fail it); [rewrite app_nil_r; exact P|apply pieces_skip; exact P].
+Qed.
+
+Lemma finish_write_pieces F sk ws log r sk1 ws1 log1 :
+  sinv F sk (sbytes log) -> finish_write sk ws log = (r, sk1, ws1, log1) ->
+  sk_writing sk1 = false /\ pieces F (sbytes log1) /\ (r = SOk \/ io_err r).
+Proof.
+  intros I E. destruct (finish_write_spec sk ws log) as (r' & sk' & ws' & log' & n & E' & W & R & Ln & Eb & _).
+  rewrite E in E'. injection E' as <- <- <- <-. split; [exact W|]. split; [|exact R].
+  rewrite Eb. unfold sinv, pend in *. destruct (sk_writing sk).
+  - destruct I as (F' & -> & P). apply p_snoc. exact P.
+  - cbn [firstn]. rewrite firstn_nil, app_nil_r. exact I.
+Qed.
+
+Lemma sink_feed_pieces fr it F sk ws log r sk1 ws1 log1 :
+  sinv F sk (sbytes log) -> sink_feed fr it sk ws log = (r, sk1, ws1, log1) ->
+  sinv (F ++ item_frames fr it) sk1 (sbytes log1).
+Proof.
+  intros I. unfold sink_feed. destruct (finish_write sk ws log) as [[[r0 sk0] ws0] log0] eqn:Fw.
+  destruct (finish_write_pieces F _ _ _ _ _ _ _ I Fw) as (W0 & P0 & R0).
+  destruct R0 as [->|R0].
+  - rewrite start_send_spec. unfold item_frames. destruct (si_fail it); intros E; injection E as <- <- <- <-.
+    + unfold sinv; cbn [sk_writing]. rewrite app_nil_r. exact P0.
+    + unfold sinv; cbn [sk_writing sk_buf]. exists F. split; [reflexivity|exact P0].
+  - destruct r0; try contradiction. intros E. injection E as <- <- <- <-.
+    unfold sinv. rewrite W0. apply pieces_skip_frames. exact P0.
+Qed.
+
+Lemma sink_flush_pieces F sk ws log r sk1 ws1 log1 :
+  sinv F sk (sbytes log) -> sink_flush sk ws log = (r, sk1, ws1, log1) -> sinv F sk1 (sbytes log1).
+Proof.
+  intros I. unfold sink_flush. destruct (sk_writing sk) eqn:W; intros E.
+  - destruct (finish_write_pieces F _ _ _ _ _ _ _ I E) as (W1 & P1 & _). unfold sinv. rewrite W1. exact P1.
+  - injection E as <- <- <- <-. unfold sinv in *. cbn [sk_writing]. rewrite W in I. rewrite sbytes_flush. exact I.
+Qed.
+
+Lemma sink_close_pieces F sk ws log r sk1 ws1 log1 :
+  sinv F sk (sbytes log) -> sink_close sk ws log = (r, sk1, ws1, log1) -> sinv F sk1 (sbytes log1).
+Proof.
+  intros I. unfold sink_close. destruct (sk_writing sk) eqn:W; intros E.
+  - destruct (finish_write_pieces F _ _ _ _ _ _ _ I E) as (W1 & P1 & _). unfold sinv. rewrite W1. exact P1.
+  - unfold sinv in I. rewrite W in I.
+    destruct (sk_conf sk); injection E as <- <- <- <-; unfold sinv; cbn [sk_writing]; try rewrite W;
+      [|rewrite sbytes_shutdown]; exact I.
+Qed.
+
+Lemma sink_step_pieces fr op F sk ws log r sk1 ws1 log1 :
+  sinv F sk (sbytes log) -> sink_step fr op sk ws log = (r, sk1, ws1, log1) ->
+  sinv (F ++ ok_frames fr [op]) sk1 (sbytes log1).
+Proof.
+  intros I. unfold ok_frames; cbn [flat_map]. rewrite app_nil_r.
+  destruct op as [it|it| |]; cbn [sink_step].
+  - apply sink_feed_pieces. exact I.
+  - destruct (sink_feed fr it sk ws log) as [[[r0 sk0] ws0] log0] eqn:Fd.
+    pose proof (sink_feed_pieces fr it F _ _ _ _ _ _ _ I Fd) as I0.
+    destruct r0; intros E; [apply (sink_flush_pieces _ _ _ _ _ _ _ _ I0 E)| |];
+      injection E as <- <- <- <-; exact I0.
+  - rewrite app_nil_r. apply sink_flush_pieces. exact I.
+  - rewrite app_nil_r. apply sink_close_pieces. exact I.
+Qed.
+
+Theorem sink_run_pieces fr : forall ops F sk ws log rs sk' log',
+  sinv F sk (sbytes log) -> sink_run fr ops sk ws log = (rs, sk', log') ->
+  sinv (F ++ ok_frames fr ops) sk' (sbytes log').
+Proof.
+  induction ops as [|op ops IH]; intros F sk ws log rs sk' log' I E.
+  - cbn [sink_run] in E. injection E as <- <- <-. cbn. rewrite app_nil_r. exact I.
+  - cbn [sink_run] in E.
+    destruct (sink_step fr op sk ws log) as [[[r sk1] ws1] log1] eqn:S.
+    destruct (sink_run fr ops sk1 ws1 log1) as [[rs1 sk2] log2] eqn:R.
+    injection E as <- <- <-. rewrite (ok_frames_cons fr op ops), app_assoc.
+    apply (IH _ _ _ _ _ _ _ (sink_step_pieces _ _ _ _ _ _ _ _ _ _ I S) R).
+Qed.
+
+(* from a fresh sink, whatever the writer does: what it has been handed plus
+   what is still pending is made of prefixes of the framings of the ok items *)
+Theorem sink_no_leak fr ops ws rs sk' log' :
+  sink_run fr ops sink_init ws [] = (rs, sk', log') ->
+  exists bs, pieces (ok_frames fr ops) bs /\
+    (sk_writing sk' = false -> bs = sbytes log') /\
+    (sk_writing sk' = true -> bs = sbytes log' ++ sk_buf sk').
+Proof.
+  intros E. pose proof (sink_run_pieces fr ops [] sink_init ws [] rs sk' log' p_nil E) as I.
+  cbn [app] in I. unfold sinv in I. destruct (sk_writing sk').
+  - destruct I as (F' & EF & P). exists (sbytes log' ++ sk_buf sk'). rewrite EF.
+    split; [|split; [discriminate|reflexivity]].
+    rewrite <- (firstn_all (sk_buf sk')) at 2. apply p_snoc. exact P.
+  - exists (sbytes log'). split; [exact I|]. split; [reflexivity|discriminate].
+Qed.
+
+(* ---- the failing decoder ----------------------------------------------- *)
+
+Lemma decode_stream_probe_spec fr sched src its r s :
+  decode_stream fr sched src = Ok (its, r, s) ->
+  decode_stream_probe fr sched src = Ok (map probe_decode its, r, s).
+Proof. intros E. unfold decode_stream_probe. rewrite E. reflexivity. Qed.
+
+(* a frame the decoder rejects is consumed like any other: the result is the
+   item-by-item image of a run whose decoded payloads are exactly the frames *)
+Theorem roundtrip_probe_decoder fr frames ns :
+  framer_ok fr -> delimited fr -> Forall (payload_ok fr) frames ->
+  Forall (fun n => 1 <= n) ns -> length (encode_stream fr frames) <= length ns ->
+  exists items reads,
+    decode_stream_probe fr (map RdChunk ns) (encode_stream fr frames) =
+      Ok (map probe_decode items, reads, []) /\
+    oks items = frames.
+Proof.
+  intros H D P Pn L.
+  destruct (roundtrip_all_fragmentations fr frames ns H D P Pn L) as (its & r & E & O).
+  exists its, r. split; [apply decode_stream_probe_spec; exact E|exact O].
+Qed.
+
+Theorem sink_program_exact fr ops ws rs sk' log' :
+  sink_run fr ops sink_init ws [] = (rs, sk', log') ->
+  Forall (fun r => ~ io_err r) rs ->
+  rs = map expected_res ops /\
+  sbytes log' ++ pend sk' = concat (ok_frames fr ops).
+Proof. intros E Hn. exact (sink_run_exact fr ops sink_init ws [] rs sk' log' E Hn). Qed.
